@@ -8,6 +8,7 @@ set -u
 export GOFLAGS=-mod=mod GOPROXY=off GOSUMDB=off GOTOOLCHAIN=local
 export VERIF_DIR="${VERIF_DIR:-/verif}"
 HERE="$(cd "$(dirname "$0")" && pwd)"
+export VERIF_HOME="$HERE"
 REPO="${VERIF_REPO:-/repo}"
 BUILD="$HERE/build"
 mkdir -p "$BUILD" "$VERIF_DIR/evidence" "$VERIF_DIR/replays"
